@@ -200,7 +200,11 @@ def r01_3(ctx, run, rule='R01.3'):
             key = vname if vname != 'Bool' else f'Bool({str(boolv).lower()})'
             enc.setdefault(key, set()).update(made)
             ret = deref_all(p.ret)
-            if not (is_call(ret, *['JEntry::' + m for m in want])):
+            if not str(b.local_ty(0).get('s', '')).endswith('JEntry'):
+                # the function does not return the entry word any more (it stores it itself): which constructor built it is read from the calls above
+                if not made:
+                    run.undecided(rule, b.path, f'arm[{key}]', f'no JEntry constructor call was found on the path for {key}: the entry word written for it is not decided')
+            elif not (is_call(ret, *['JEntry::' + m for m in want])):
                 run.violation(rule, b.path, f'arm[{key}]', f'entry returned for {key} is not built by a JEntry constructor: {show(ret)}')
         expect = {'Null': 'make_null_jentry', 'Bool(true)': 'make_true_jentry', 'Bool(false)': 'make_false_jentry',
                   'String': 'make_string_jentry', 'Number': 'make_number_jentry', 'Array': 'make_container_jentry', 'Object': 'make_container_jentry'}
@@ -234,7 +238,14 @@ def r01_3(ctx, run, rule='R01.3'):
         vs = [v['name'] for v in f.adts.get(VALUE, {}).get('variants', [])]
         ai, oi = vs.index('Array'), vs.index('Object')
         ok = table.get(ai) == ['encode_array'] and table.get(oi) == ['encode_object'] and table.get('otherwise') == ['encode_scalar']
-        (run.proved if ok else run.violation)(rule, b.path, 'dispatch', 'Array->encode_array, Object->encode_object, other->encode_scalar' if ok else f'top-level dispatch table is {table}', f'{b.file}:{b.line}')
+        known = {'encode_array', 'encode_object', 'encode_scalar'}
+        crossed = any(v_ and set(v_) <= known and v_ != w_ for v_, w_ in ((table.get(ai), ['encode_array']), (table.get(oi), ['encode_object']), (table.get('otherwise'), ['encode_scalar'])))
+        if ok:
+            run.proved(rule, b.path, 'dispatch', 'Array->encode_array, Object->encode_object, other->encode_scalar', f'{b.file}:{b.line}')
+        elif crossed:
+            run.violation(rule, b.path, 'dispatch', f'top-level dispatch table is {table}', f'{b.file}:{b.line}')
+        else:
+            run.undecided(rule, b.path, 'dispatch', f'top-level dispatch table is {table}: the writers were not recognised by name (renamed?): not decided', f'{b.file}:{b.line}')
     else:
         run.undecided(rule, 'ser::Encoder::encode', 'dispatch', 'function not found (anchor lost)')
     # decoder: header switch
@@ -261,10 +272,14 @@ def r01_3(ctx, run, rule='R01.3'):
                 table['otherwise'] = 'Err' if (agg_variant(r) and r[1][2] == 'Err') else show(r)
         exp = {'SCALAR_CONTAINER_TAG': ['decode_scalar'], 'ARRAY_CONTAINER_TAG': ['decode_array'], 'OBJECT_CONTAINER_TAG': ['decode_object'], 'otherwise': 'Err'}
         for k, v in exp.items():
-            if table.get(k) == v:
+            got = table.get(k)
+            if got == v:
                 run.proved(rule, b.path, f'header-arm[{k}]', f'-> {v}')
+            elif got is None or got == [] or (isinstance(got, str) and got != 'Err' and k == 'otherwise' and 'Err' not in got and not got.startswith('Result::Ok')):
+                run.undecided(rule, b.path, f'header-arm[{k}]', f'expected {v}; this arm was not recognised (the header is read or dispatched through a helper this rule does not know by name?): '
+                              'not decided', f'{b.file}:{b.line}')
             else:
-                run.violation(rule, b.path, f'header-arm[{k}]', f'expected {v}, found {table.get(k)}', f'{b.file}:{b.line}')
+                run.violation(rule, b.path, f'header-arm[{k}]', f'expected {v}, found {got}', f'{b.file}:{b.line}')
     # decoder: entry switch -> constructed variant
     b = f.one("de::Decoder::<'a>::decode_scalar")
     if b is None:
@@ -300,6 +315,8 @@ def r01_3(ctx, run, rule='R01.3'):
         for k, v in exp.items():
             if table.get(k) == v:
                 run.proved(rule, b.path, f'entry-arm[{k}]', f'-> {sorted(v)[0]}')
+            elif not table.get(k) or table.get(k) <= {None}:
+                run.undecided(rule, b.path, f'entry-arm[{k}]', f'expected {sorted(v)}; no arm for this tag was recognised (restructured?): not decided', f'{b.file}:{b.line}')
             else:
                 run.violation(rule, b.path, f'entry-arm[{k}]', f'expected {sorted(v)}, found {sorted(map(str, table.get(k, [])))} — the decoder would not invert the encoder for this tag', f'{b.file}:{b.line}')
     for fn, var in (('decode_array', 'Array'), ('decode_object', 'Object')):
@@ -474,6 +491,44 @@ def r01_5(ctx, run, rule='R01.5', which='ser'):
         zero_fns = [("builder::replace_jentry", 'replace_jentry')]
         reserve = "builder::reserve_jentries"
     cs = writer_contracts(which)
+    # the reserve helper's effect on the buffer is read from its body: resize(old_len + k * arg + c)  =>  appends k * arg + c
+    rb = f.body(reserve)
+    derived = derive_reserve(rb) if rb is not None else None
+    if rb is not None:
+        nm_ = tuple(x for x in ('Encoder::reserve_jentries', 'builder::reserve_jentries') if reserve.endswith(x.split('::')[-1]) and x.split('::')[0] in reserve)
+        def reserve_contract(ev, derived=derived):
+            if derived is None:
+                return 'unknown'
+            k_, c_, ai = derived
+            l_ = lin(ev[2][ai])
+            return ({a: v * k_ for a, v in l_[0].items()}, l_[1] * k_ + c_)
+        cs = [(names, fn_) for names, fn_ in cs if not any(n_.endswith('reserve_jentries') for n_ in names)] + [(nm_ or ('reserve_jentries',), reserve_contract)]
+    # contracts of the writers of the family follow their actual return type: usize = bytes appended; JEntry = its length field; anything else unknown
+    fam = [t_[0] for t_ in targets]
+    def typed_contract(path_):
+        bb_ = f.body(path_)
+        if bb_ is None:
+            return None
+        rt = str(bb_.local_ty(0).get('s', ''))
+        if rt == 'usize':
+            return lambda ev: ({ev[4]: 1}, 0)
+        if rt.endswith('JEntry'):
+            return lambda ev: ({('lenfield', ev[4]): 1}, 0)
+        return lambda ev: 'unknown'
+    fam_short = {('::'.join(p_.replace("::<'a>", '').split('::')[-2:])): p_ for p_ in fam}
+    cs2 = []
+    for names, fn_ in cs:
+        keep = tuple(n_ for n_ in names if n_ not in fam_short)
+        if keep:
+            cs2.append((keep, fn_))
+        for n_ in names:
+            if n_ in fam_short:
+                tc = typed_contract(fam_short[n_])
+                if tc is not None:
+                    cs2.append(((n_,), tc))
+    cs = cs2
+    targets = [(p_, ('usize' if str(f.body(p_).local_ty(0).get('s', '')) == 'usize' else ('jentry' if str(f.body(p_).local_ty(0).get('s', '')).endswith('JEntry') else 'other'))
+                if f.body(p_) is not None else k_) for p_, k_ in targets]
     jm = jentry_len_measure(mk)
 
     def jm2(ret):
@@ -487,6 +542,10 @@ def r01_5(ctx, run, rule='R01.5', which='ser'):
         b = f.body(path)
         if b is None:
             run.undecided(rule, path, 'contract', 'function not found (anchor lost)')
+            continue
+        if kind == 'other':
+            run.undecided(rule, path, 'contract', f'this writer returns {b.local_ty(0).get("s")}, neither a byte count nor an entry word: the relation between what it returns and what it appends is not decided',
+                          f'{b.file}:{b.line}')
             continue
         def is_buffer(t, b=b):
             x = deref_all(t)
@@ -531,23 +590,41 @@ def r01_5(ctx, run, rule='R01.5', which='ser'):
     b = f.body(reserve)
     if b is None:
         run.undecided(rule, reserve, 'appends-its-argument', 'function not found (anchor lost)')
+    elif derived is None:
+        run.undecided(rule, reserve, 'appends-its-argument', 'the reserve helper is not a single resize(old_len + k * n + c): how many bytes it appends is not read, and the accounting of its callers is '
+                      'not decided', f'{b.file}:{b.line}')
     else:
-        ps, _ = explore(b)
-        ok = False
-        for p in ps:
-            if p.end[0] != 'return':
-                continue
-            rs = [e for e in p.calls() if called(e[1], 'Vec::resize')]
-            ls = [e for e in p.calls() if called(e[1], 'Vec::len')]
-            if len(rs) == 1 and ls:
-                new_len = lin(rs[0][2][1])
-                want = lin(('bin', 'Add', ls[0][4], ('init', 2, None)))
-                a = {show(k): v for k, v in new_len[0].items()}
-                # new_len = old_len + len-argument ; returns old_len
-                names = sorted(a)
-                ok = (new_len[1] == 0 and len(a) == 2 and all(v == 1 for v in a.values()) and p.ret == ls[0][4])
-        (run.proved if ok else run.violation)(rule, reserve, 'appends-its-argument',
-                                               'resize(old_len + n), returns old_len' if ok else 'reserve helper does not resize to old_len + n and return old_len', f'{b.file}:{b.line}')
+        k_, c_, ai = derived
+        run.proved(rule, reserve, 'appends-its-argument', f'resize(old_len + {k_} * argument{" + " + str(c_) if c_ else ""}): this is the contract used for its callers', f'{b.file}:{b.line}')
+
+
+def derive_reserve(b):
+    """(k, c, argument index) if every return path of the helper performs exactly one resize(buf, old_len + k * arg + c, _)"""
+    ps, _ = explore(b)
+    out = set()
+    for p in ps:
+        if p.end[0] != 'return':
+            continue
+        rs = [e for e in p.calls() if called(e[1], 'Vec::resize')]
+        ls = [e for e in p.calls() if called(e[1], 'Vec::len')]
+        if len(rs) != 1 or not ls or any(called(e[1], 'Vec::push', 'Vec::extend_from_slice', 'WriteBytesExt::write_u32', 'Write::write_all', 'Vec::truncate') for e in p.calls()):
+            return None
+        new_len = lin(rs[0][2][1])
+        if new_len is None:
+            return None
+        coef = dict(new_len[0])
+        if coef.pop(ls[0][4], None) != 1:
+            return None
+        if len(coef) != 1:
+            return None
+        (a, k_), = coef.items()
+        a0 = a
+        while a0[0] in ('cast', 'deref', 'ref'):
+            a0 = a0[2] if a0[0] == 'cast' else a0[1]
+        if a0[0] != 'init' or not (1 <= a0[1] <= b.argc):
+            return None
+        out.add((k_, new_len[1], a0[1] - 1))
+    return out.pop() if len(out) == 1 else None
 
 
 def callee_of(t):
@@ -589,6 +666,13 @@ def r01_7(ctx, run, rule='R01.7'):
         first, second = (heads[0], heads[1]) if dominates(b, heads[0], heads[1]) else (heads[1], heads[0])
         cf, cs_ = callees_in(loops[first]), callees_in(loops[second])
         ok = 'encode_value' not in cf and 'extend_from_slice' in cf and 'encode_value' in cs_
-        (run.proved if ok else run.violation)(rule, b.path, 'phase-order', 'all key bytes are written before any value' if ok else 'the key loop and the value loop are not in keys-then-values order', f'{b.file}:{b.line}')
+        rev = 'encode_value' in cf and 'encode_value' not in cs_ and 'extend_from_slice' in cs_
+        if ok:
+            run.proved(rule, b.path, 'phase-order', 'all key bytes are written before any value', f'{b.file}:{b.line}')
+        elif rev:
+            run.violation(rule, b.path, 'phase-order', 'the key loop and the value loop are not in keys-then-values order', f'{b.file}:{b.line}')
+        else:
+            run.undecided(rule, b.path, 'phase-order', f'the two loops call {sorted(cf)} and {sorted(cs_)}: not the key-bytes loop followed by the encode_value loop this rule reads (helpers renamed?): '
+                          'the order of the phases is not decided here', f'{b.file}:{b.line}')
     else:
         run.undecided(rule, b.path, 'phase-order', f'not written as exactly two loops (keys, values): found {len(heads)}; the order of the phases is not decided here', f'{b.file}:{b.line}')
